@@ -5,6 +5,7 @@ package main
 import (
 	"fmt"
 	"go/token"
+	"go/types"
 	"strings"
 
 	"golang.org/x/tools/go/ssa"
@@ -122,7 +123,7 @@ func c16Differences(w *World, r *Report) {
 	if cmp == nil {
 		fatalf("C16-b: sync.CompareFS not found")
 	}
-	fns := withClosures(cmp)
+	fns := c16WithHelpers(w, cmp)
 	name := fnName(cmp)
 	// (1) Stat on the target
 	n := 0
@@ -814,4 +815,58 @@ func c16SliceWriterParam(h *ssa.Function) int {
 		}
 	}
 	return -1
+}
+
+// c16WithHelpers: fn, its closures, and the functions of package sync it calls or passes on as values (walk callbacks
+// written as methods of a state struct arrive as bound-method closures), two levels deep.
+func c16WithHelpers(w *World, fn *ssa.Function) []*ssa.Function {
+	out := withClosures(fn)
+	seen := map[*ssa.Function]bool{}
+	for _, f := range out {
+		seen[f] = true
+	}
+	resolve := func(v ssa.Value) *ssa.Function {
+		var g *ssa.Function
+		switch x := v.(type) {
+		case *ssa.Function:
+			g = x
+		case *ssa.MakeClosure:
+			g, _ = x.Fn.(*ssa.Function)
+		}
+		if g == nil {
+			return nil
+		}
+		if g.Synthetic != "" {
+			// bound method wrapper / thunk: the declared method
+			if obj, ok := g.Object().(*types.Func); ok {
+				if d := w.Prog.FuncValue(obj); d != nil {
+					g = d
+				}
+			}
+		}
+		if g.Blocks == nil || !w.fnSet[g] || w.pkgOf(g) != "sync" {
+			return nil
+		}
+		return g
+	}
+	for level := 0; level < 2; level++ {
+		for _, f := range append([]*ssa.Function{}, out...) {
+			allInstrs(f, func(ins ssa.Instruction) {
+				for _, op := range ins.Operands(nil) {
+					if op == nil || *op == nil {
+						continue
+					}
+					if g := resolve(*op); g != nil && !seen[g] {
+						for _, h := range withClosures(g) {
+							if !seen[h] {
+								seen[h] = true
+								out = append(out, h)
+							}
+						}
+					}
+				}
+			})
+		}
+	}
+	return out
 }
